@@ -25,6 +25,9 @@ for sid in sorted(os.listdir(os.path.join(V, 'seeded'))):
     title = (m.get('title') or '').replace('|', '/')[:110]
     needs = (m.get('needs') or '').replace('|', '/').replace('\n', ' ')[:140]
     res = rows.get(sid, {})
+    if m.get('retired'):
+        out.append('| %s | %s | %s | %s | - | RETIRED | %s |' % (sid, m.get('breaks_property'), title, needs, m['retired'].replace('|', '/')[:200]))
+        continue
     if not res:
         out.append('| %s | %s | %s | %s | (not run) | | |' % (sid, m.get('breaks_property'), title, needs))
     for chk, (rc, kind, path) in sorted(res.items()):
